@@ -341,7 +341,7 @@ func vlHistory(t *testing.T, enc *json.Encoder, hist int, rng *rand.Rand, nblock
 					c = 0
 				}
 				dst := owners[rng.Intn(len(owners))].addr
-				if rng.Intn(6) == 0 {
+				if rng.Intn(6) == 0 && hist%4 != 3 { // (not in the history that ends with the time jump: its richest output must stay spendable)
 					dst = cipher.Address{} // the hard rules allow an output to the null address (it can never be spent)
 				}
 				txn.Out = append(txn.Out, coin.TransactionOutput{Address: dst, Coins: c, Hours: hh})
@@ -421,6 +421,16 @@ func vlHistory(t *testing.T, enc *json.Encoder, hist int, rng *rand.Rand, nblock
 			"replayed-spend", "coins-created", "coins-destroyed", "hours-created", "zero-coin-output", "txn-badsig", "repeat-head", "second-genesis", "empty-block", "unknown-input", "dup-input", "hours-plus-one", "hours-plus-one", "hours-wrap"}
 		rng.Shuffle(len(muts), func(i, j int) { muts[i], muts[j] = muts[j], muts[i] })
 		sel := muts[:3+rng.Intn(4)]
+		if hist%4 == 3 {
+			// this history ends with the early-block and time-jump scenarios: the known finding (which ends a history) stays out
+			kept := sel[:0]
+			for _, m := range sel {
+				if m != "hours-wrap" {
+					kept = append(kept, m)
+				}
+			}
+			sel = kept
+		}
 		if bi%2 == 0 {
 			has := false
 			for _, m := range sel {
